@@ -151,7 +151,9 @@ func c27(c *Ctx) {
 	c.Rule = "sequences over 1..5 distinct values (random pairs; b derived from a by random runs of insertions/deletions/replacements, " +
 		"runs up to 40; equal, empty, one-element, shared prefix/suffix) fed to lcs/middle through hooks: the returned script is judged by the " +
 		"verified DP reference (applies, cost = |a|+|b|-2*LCS) and compared with the mirror; texts over a small alphabet of lines " +
-		"(including empty lines, lines that look like hunk headers/markers, with and without trailing newline, equal texts, empty texts) fed to " +
+		"(including empty lines, lines that look like hunk headers/markers, with and without trailing newline, equal texts, empty texts; plus " +
+		"texts built from groups of look-alike lines: trailing CR, CRLF copy of an LF text, trailing blanks/tabs, case, prefixes, NUL and non-UTF-8 bytes, " +
+		"composed/decomposed accents, final line with/without LF/CRLF) fed to " +
 		"diff.LineDiff: rendering compared with the mirror byte for byte, hunks applied by the verified applier. The hunks-apply clause is only " +
 		"evaluated on inputs whose script has no run of more than 14 inserted or deleted lines (longer runs are elided by hunk.add: finding " +
 		c27KnownToken + ", reproduced by fixed cases); on longer runs the rendering is still compared (op ldr) and the script is still judged. " +
@@ -206,6 +208,12 @@ func c27(c *Ctx) {
 	m := c.N(1200, 30000)
 	for i := 0; i < m; i++ {
 		l, r, shape := c27Texts(c.Rng)
+		c27LD(c, l, r, shape, false)
+	}
+	// texts whose lines are "almost equal": anything an interning of lines that normalises could conflate
+	m = c.N(1200, 30000)
+	for i := 0; i < m; i++ {
+		l, r, shape := c27ConfusableTexts(c.Rng)
 		c27LD(c, l, r, shape, false)
 	}
 }
@@ -405,6 +413,112 @@ func c27Mid(c *Ctx, a, b []int) {
 }
 
 // ---- texts ----
+
+// c27Confusable: groups of lines that differ only by a trailing carriage return, trailing blanks or
+// tabs, letter case, being a prefix of each other, NUL or non-UTF-8 bytes, composed/decomposed forms.
+var c27Confusable = [][]string{
+	{"x", "x\r", "x ", "x\t", "X", "xy", "x\r\r", " x", "x\x00", "x\xff"},
+	{"", "\r", " ", "\t", "\x00", "\xff", "\xc3"},
+	{"end", "end\r", "END", "end ", "en", "endif"},
+	{"\xc3\xa9", "e\xcc\x81", "\xe9", "\xc3\xa9\r", "e"},
+	{"a b", "a  b", "a\tb", "a b\r", "A B"},
+}
+
+// c27ConfusableTexts builds a pair of texts from such groups.
+func c27ConfusableTexts(r *rand.Rand) (left, right, shape string) {
+	g := c27Confusable[r.Intn(len(c27Confusable))]
+	g2 := c27Confusable[r.Intn(len(c27Confusable))]
+	pool := append(append([]string(nil), g[:1+r.Intn(len(g))]...), g2[:1+r.Intn(len(g2))]...)
+	line := func() string { return pool[r.Intn(len(pool))] }
+	variant := func(s string) string {
+		// another member of a group that contains s, else s with a changed ending
+		for _, grp := range c27Confusable {
+			for _, m := range grp {
+				if m == s {
+					return grp[r.Intn(len(grp))]
+				}
+			}
+		}
+		return s + "\r"
+	}
+	n := r.Intn(13)
+	var a []string
+	for i := 0; i < n; i++ {
+		if r.Intn(4) == 0 {
+			a = append(a, fmt.Sprintf("u%d", i))
+		} else {
+			a = append(a, line())
+		}
+	}
+	var b []string
+	switch r.Intn(6) {
+	case 0: // the CRLF copy of an LF text (or the converse)
+		shape = "confusable crlf-copy"
+		for _, l := range a {
+			b = append(b, l+"\r")
+		}
+		if r.Intn(2) == 0 {
+			a, b = b, a
+		}
+	case 1: // some lines get a carriage return
+		shape = "confusable some-cr"
+		for _, l := range a {
+			if r.Intn(3) == 0 {
+				l = l + "\r"
+			}
+			b = append(b, l)
+		}
+	case 2: // some lines replaced by a look-alike
+		shape = "confusable variants"
+		for _, l := range a {
+			if r.Intn(3) == 0 {
+				l = variant(l)
+			}
+			b = append(b, l)
+		}
+	case 3: // a look-alike of an existing line is inserted or deleted
+		shape = "confusable insert-variant"
+		for _, l := range a {
+			if r.Intn(4) == 0 {
+				b = append(b, variant(l))
+			}
+			if r.Intn(6) != 0 {
+				b = append(b, l)
+			}
+		}
+	case 4:
+		shape = "confusable equal"
+		b = append([]string(nil), a...)
+	default:
+		shape = "confusable random-pair"
+		for i := r.Intn(13); i > 0; i-- {
+			b = append(b, line())
+		}
+	}
+	left, right = strings.Join(a, "\n"), strings.Join(b, "\n")
+	switch r.Intn(6) {
+	case 0:
+		left += "\n"
+		shape += " nl/-"
+	case 1:
+		right += "\n"
+		shape += " -/nl"
+	case 2:
+		left += "\n"
+		right += "\n"
+		shape += " nl/nl"
+	case 3:
+		left += "\n"
+		right += "\r\n"
+		shape += " nl/crnl"
+	case 4:
+		right += "\r"
+		shape += " -/cr"
+	default:
+		shape += " -/-"
+	}
+	return
+}
 
 var c27Alphabet = []string{"a", "b", "c", "", "x y", "@@ -1,1 +1,1 @@", "+a", "-b", " ", "  ... 2 lines skipped ...", "func f() {", "}"}
 
